@@ -11,4 +11,62 @@ PROPS = {
   trusted_base=["encoding/json text layer (JSON text <-> ordered document) and its sorting of map keys are modelled, not verified"],
   assumptions=["Go map iteration order is modelled as the order of an association list with distinct keys"],
  ),
+
+ "C01": dict(
+  families=[dict(name="suite2020", model="val", quick=0, thorough=0),
+            dict(name="val", model="val", quick=1200, thorough=30000),
+            dict(name="uneval", model="val", quick=400, thorough=10000)],
+  ignore_keys=["calls"],
+  rule="schema documents over the full 2020-12 keyword set (G-val: 1-4 keywords per object from 40 choices, nesting <= 4, $defs/$ref/$anchor with instance-descending recursion, shared pools of 6 names / 9 strings / 18 numbers incl. +-2^53, 9 regexps), 14 instances per schema (6 schema-guided, 6 single-point mutations, 2 random); plus every group of the official 2020-12 suite with its expected verdicts; "
+       "non-trivial: >= 3 distinct keywords in the document; distinct by keyword multiset",
+  trusted_base=["regexp (oracle table shipped with each case: compiles?, MatchString)", "encoding/json text layer", "IEEE-754 division for multipleOf on the property's restricted domain (dyadic operands, exact quotient)"],
+  assumptions=["instances are JSON values decoded by encoding/json into any (canonical representation); other representations are C08",
+               "multipleOf operands outside the property's domain are not generated (big instance numbers are dropped when the document uses multipleOf)"],
+ ),
+ "C02": dict(
+  families=[dict(name="suite7", model="val", quick=0, thorough=0),
+            dict(name="d7", model="val", quick=1200, thorough=30000)],
+  ignore_keys=["calls"],
+  rule="draft-07 documents (G-val with the draft-07 profile: definitions, dependencies in both forms, items in both forms, additionalItems, $ref with siblings; both $schema spellings), 14 instances each; plus every group of the official draft-07 suite with expected verdicts; non-trivial: >= 3 distinct keywords; distinct by keyword multiset",
+  trusted_base=["regexp oracle", "encoding/json text layer"],
+  assumptions=["the vocabulary is the union the package knows: 2020-12-only keywords inside draft-07 documents are honoured by both the code and the specification function"],
+ ),
+ "C06": dict(
+  families=[dict(name="dyn", model="val", quick=1500, thorough=30000),
+            dict(name="suite2020", model="val", quick=0, thorough=0)],
+  rule="G-dyn: chains of 1-5 schema resources (embedded or loader-supplied), each with $dynamicAnchor / $anchor / nothing named 'node', entered through $ref / allOf / anyOf / if-then hops, final $dynamicRef (or $ref) in fragment, resource-relative or pointer form; marker constants identify the chosen target; each Resolved validates a history of 2x(markers+2) calls; non-trivial: >= 2 resources and >= 2 candidate targets; distinct by document hash",
+  trusted_base=["net/url (Parse, ResolveReference) modelled on a restricted alphabet", "encoding/json text layer"],
+  assumptions=["universes are coherent: the loader returns a fresh copy of the same document for a URI"],
+ ),
+ "C07": dict(
+  families=[dict(name="uneval", model="val", quick=1500, thorough=40000),
+            dict(name="val", model="val", quick=500, thorough=10000)],
+  ignore_keys=["calls"],
+  rule="G-val with the unevaluated profile (2-4 keywords per object, biased to properties/patternProperties/additionalProperties/prefixItems/items/contains/in-place applicators/$ref/unevaluated*), instances over a pool of 6 names and small item pools; non-trivial: >= 3 distinct keywords; distinct by keyword multiset",
+  trusted_base=["regexp oracle", "encoding/json text layer"],
+  assumptions=[],
+ ),
+ "C08": dict(
+  families=[dict(name="repr", model="val", quick=800, thorough=20000)],
+  ignore_keys=["calls"],
+  rule="(schema, JSON value) pairs x 4 representations each (canonical + 3 random: numeric kind per leaf among 14 incl. float32/json.Number/named int, []any / typed slice / Go array, map[string]any / typed element / named key type, pointer and interface wrapping, nil pointers for null); non-trivial: some representation differs from the canonical one and the schema has >= 2 keywords; distinct by (keyword multiset, number of differing representations)",
+  trusted_base=["reflect (kinds, Convert for named key types)", "the abstraction Go value -> gv performed by the harness (sxOfValue)"],
+  assumptions=["nil slices, nil maps and struct instances are outside the domain, as the property states"],
+ ),
+ "C11": dict(
+  families=[dict(name="equal", model="equal", quick=1500, thorough=40000)],
+  ignore_keys=["hasheq"],
+  rule="12 pairs per case of JSON values in independently drawn representations: identical values, near misses (x vs x.0, 2^53 vs 2^53+1, NFC vs NFD, permuted object members, single-leaf mutations), unrelated values; non-trivial: >= 3 pairs whose representations differ; distinct by case hash",
+  trusted_base=["math/big (Rat comparison)", "reflect", "the abstraction Go value -> gv performed by the harness"],
+  assumptions=["well-formed representations: no NaN/Inf, json.Number holding a literal big.Rat parses"],
+ ),
+ "C12": dict(
+  families=[dict(name="equal", model="equal", quick=800, thorough=20000),
+            dict(name="repr", model="val", quick=500, thorough=10000),
+            dict(name="val", model="val", quick=400, thorough=10000)],
+  ignore_keys=["calls", "hasheq"],
+  rule="enum/const/uniqueItems inside G-val documents against instances in mixed representations (duplicates injected), verdicts under the per-call seed of the package vs the model's arbitrary bucket function; plus the hash law on value pairs through the verif hook (model-equal streams must give equal hashes under one seed); non-trivial as in C08/C11",
+  trusted_base=["hash/maphash (an arbitrary function of seed and bytes written)", "math/big normalisation of Rat"],
+  assumptions=[],
+ ),
 }
